@@ -41,7 +41,8 @@ REQUIRED = dict(monitors=['intensity-per-angle', 'flux', 'eclipse-spectrum', 'di
                           'partial-model-equals-intensity', 'ktable-intensity-per-angle', 'ktable-flux'],
                 classes=['model:emission', 'model:directimage', 'clamp-possible', 'no-clamp', 'ngauss:1', 'ngauss:8',
                          'T:isothermal', 'T:array', 'magnitude:transparent', 'magnitude:saturating',
-                         'rerun:evaluated-after-change', 'mode:ktable'])
+                         'rerun:evaluated-after-change', 'mode:ktable', 'ktable:continuum-only-model',
+                         'ktable:model_contrib-entry-judged', 'ktable-mode:no-molecular-absorber'])
 CUT = math.exp(-10.0)
 _state = {}
 
@@ -70,7 +71,11 @@ def setup(ctx):
             'kweights': next((np.array(c.weights, dtype=float) for c in self.contribution_list
                               if getattr(c, 'weights', None) is not None), None),
         }
+        from taurex.cache import GlobalCache
+        snap['ktable_mode'] = GlobalCache()['opacity_method'] == 'ktables'
         _state['snap'] = snap
+        if _state.get('snaps') is not None:
+            _state['snaps'].append(snap)
         ctx.event('tap:evaluate_emission')
         return snap
 
@@ -163,6 +168,11 @@ def oracle(ctx, snap, spec):
             continue
         for l in range(n):
             dtau[l] += sig[l] * snap['rho'][l] ** p * snap['dz'][l]
+    if ktau is None and snap.get('ktable_mode'):
+        # correlated-k mode without a molecular absorber in this evaluation (a continuum-only model, or one entry of
+        # model_contrib): the same integral with an empty k part; this mode applies no clamp
+        ktau, kw = np.zeros((n, nwn, 1)), np.array([1.0])
+        ctx.observe('ktable-mode:no-molecular-absorber')
     if ktau is not None:
         return oracle_ktable(ctx, snap, spec, dtau, ktau, kw)
     ng = snap['ngauss']
@@ -267,6 +277,14 @@ def wl_ktable(ctx, rng):
     if pairs:
         wn = next(iter(spec['tables'].values()))['wn']
         world.install_cia(np.random.default_rng(spec['cia_seed']), pairs, wn, spec['cia_magnitude'])
+    names = [c if isinstance(c, str) else c['name'] for c in spec['contributions']]
+    continuum_only = False
+    if rng.random() < 0.3:
+        # correlated-k mode, but no molecular absorption in the model (continuum only: CIA / Rayleigh / hazes)
+        rest = [c for c in spec['contributions'] if (c if isinstance(c, str) else c['name']) != 'Absorption']
+        spec['contributions'] = rest or ['Rayleigh']
+        continuum_only = True
+        ctx.observe('ktable:continuum-only-model')
     model = world.build_model(spec, kind, ngauss=spec['ngauss'])
     world.add_contributions(model, spec)
     try:
@@ -274,13 +292,25 @@ def wl_ktable(ctx, rng):
         if snap is None:
             return
         res = oracle(ctx, snap, spec)
-        ctx.check('ktable-path-was-taken', snap.get('kweights') is not None and any(c[2].ndim == 3 for c in snap['contribs']))
+        if not continuum_only and 'Absorption' in names:
+            ctx.check('ktable-path-was-taken', snap.get('kweights') is not None and any(c[2].ndim == 3 for c in snap['contribs']))
         judge_spectrum(ctx, snap, out, res, spec, kind)
         if iso:
             wn = np.array(out[0])
             T = spec['temperature']['T']
             want = R.planck_taurex_units(wn, T) / R.planck_taurex_units(wn, snap['Tstar']) * (snap['Rp'] / snap['Rs']) ** 2
             ctx.close('isothermal-identity', out[1], want, 1e-9, T=T, mode='ktable', ng_k=ngk)
+        # every contribution on its own (model_contrib evaluates each with the same code path): each evaluation judged
+        _state['snaps'] = []
+        try:
+            model.model_contrib()
+            snaps = list(_state['snaps'])
+        finally:
+            _state['snaps'] = None
+        for sn in snaps:
+            if 'I' in sn and 'f_total' in sn:
+                oracle(ctx, sn, spec)
+                ctx.observe('ktable:model_contrib-entry-judged')
     finally:
         import shutil
         world.reset_caches()
